@@ -155,7 +155,8 @@ func hookText(fn, site, kind string, h *HookMeta, dstT, srcT string, extras []st
 }
 
 // MisfitKinds are the hook shapes that cannot fit the method (C10, last sentence).
-var MisfitKinds = []string{"err-hook-on-noerr-method", "wrong-dst-type", "wrong-src-type", "extra-count-mismatch", "extra-type-mismatch", "non-error-result", "two-results", "one-param"}
+var MisfitKinds = []string{"err-hook-on-noerr-method", "wrong-dst-type", "wrong-src-type", "extra-count-mismatch", "extra-type-mismatch", "non-error-result", "two-results", "one-param",
+	"extra-ptr-for-value", "extra-value-for-ptr", "extra-count-too-many", "dst-double-pointer", "src-slice", "extra-slice-for-value"}
 
 // Gen builds one gensim world. kind is "normal", "noerr" or "misfit".
 func Gen(r *sim.Rng, kind string) (*sim.WorldSpec, *Meta) {
@@ -185,10 +186,13 @@ func Gen(r *sim.Rng, kind string) (*sim.WorldSpec, *Meta) {
 	getBPtr := r.Bool()
 	var sb strings.Builder
 	sb.WriteString("package ms\n\nimport \"example.com/g/rt\"\n\n")
-	sb.WriteString("type Nest struct {\n\tX int\n\tY int\n\tZ string\n}\n\n")
+	sb.WriteString("type Inner struct {\n\tW int\n\tV int\n}\n\n")
+	sb.WriteString("type Nest struct {\n\tX  int\n\tY  int\n\tZ  string\n\tIn Inner\n}\n\n")
 	sb.WriteString("type Base struct {\n\tE1 int\n\tE2 string\n}\n\n")
 	sb.WriteString(structText("S", sFields, ""))
 	sb.WriteString("type Extra struct {\n\tV int\n}\n\n")
+	sb.WriteString(getterText("Inner", "GetV", "Inner.GetV", true, false, "V"))
+	sb.WriteString(getterText("Inner", "PlainV", "Inner.PlainV", false, false, "V"))
 	sb.WriteString(getterText("Nest", "GetY", "Nest.GetY", true, false, "Y"))
 	sb.WriteString(getterText("Nest", "PlainY", "Nest.PlainY", false, false, "Y"))
 	sb.WriteString(getterText("S", "GetB", "S.GetB", true, getBPtr, "B"))
@@ -198,7 +202,8 @@ func Gen(r *sim.Rng, kind string) (*sim.WorldSpec, *Meta) {
 	w.Files["mod/ms/ms.go"] = sb.String()
 	var db strings.Builder
 	db.WriteString("package md\n\n")
-	db.WriteString("type Nest struct {\n\tX string\n\tY int\n\tZ string\n}\n\n")
+	db.WriteString("type Inner struct {\n\tW string\n\tV int\n}\n\n")
+	db.WriteString("type Nest struct {\n\tX  string\n\tY  int\n\tZ  string\n\tIn Inner\n}\n\n")
 	db.WriteString("type Base struct {\n\tE1 string\n\tE2 string\n}\n\n")
 	db.WriteString(structText("D", dOrder, ""))
 	w.Files["mod/md/md.go"] = db.String()
@@ -209,6 +214,7 @@ func Gen(r *sim.Rng, kind string) (*sim.WorldSpec, *Meta) {
 		{"cD", "int", "string", true}, {"pD", "int", "string", false},
 		{"cNX", "int", "string", true}, {"pNX", "int", "string", false},
 		{"cE1", "int", "string", true}, {"pE1", "int", "string", false},
+		{"cW", "int", "string", true}, {"pW", "int", "string", false},
 		{"cC", "string", "string", true}, {"pC", "string", "string", false},
 		{"cR", "string", "string", true},
 	}
@@ -268,7 +274,9 @@ func Gen(r *sim.Rng, kind string) (*sim.WorldSpec, *Meta) {
 		if mm.Local && r.Chance(2, 3) {
 			mm.Recv = "r"
 		}
-		switch r.Intn(4) {
+		switch r.Intn(5) {
+		case 4:
+			mm.Extras = []string{"*ms.Extra", "*int"}
 		case 1:
 			mm.Extras = []string{"ms.Extra"}
 		case 2:
@@ -333,6 +341,17 @@ func Gen(r *sim.Rng, kind string) (*sim.WorldSpec, *Meta) {
 				notes = append(notes, ":map "+g+" N.Y")
 				capable["Nest."+strings.TrimSuffix(strings.TrimPrefix(g, "N."), "()")] = c
 			}
+			// two structs deep
+			if slot(45) {
+				f, c := pickCap(mm.RetErr, "cW", "pW")
+				notes = append(notes, ":conv "+f+" N.In.W")
+				capable[f] = c
+			}
+			if slot(25) {
+				g, c := pickCap(mm.RetErr, "N.In.GetV()", "N.In.PlainV()")
+				notes = append(notes, ":map "+g+" N.In.V")
+				capable["Inner."+strings.TrimSuffix(strings.TrimPrefix(g, "N.In."), "()")] = c
+			}
 		}
 		if slot(40) {
 			f, c := pickCap(mm.RetErr, "cP", "pP")
@@ -353,7 +372,7 @@ func Gen(r *sim.Rng, kind string) (*sim.WorldSpec, *Meta) {
 			}
 			capable[t+strings.TrimSuffix(g, "()")] = c
 		}
-		if len(mm.Extras) > 0 && mm.Extras[0] == "ms.Extra" && slot(60) {
+		if len(mm.Extras) > 0 && strings.TrimPrefix(mm.Extras[0], "*") == "ms.Extra" && slot(60) {
 			g, c := pickCap(mm.RetErr, "$2.Get()", "$2.Plain()")
 			notes = append(notes, ":map "+g+" Q")
 			capable["Extra."+strings.TrimSuffix(strings.TrimPrefix(g, "$2."), "()")] = c
@@ -434,6 +453,22 @@ func Gen(r *sim.Rng, kind string) (*sim.WorldSpec, *Meta) {
 			case "extra-type-mismatch":
 				mm.Extras = []string{"int", "string"}
 				ex = ", a0 string, a1 int"
+			case "extra-ptr-for-value":
+				mm.Extras = []string{"int", "string"}
+				ex = ", a0 *int, a1 string"
+			case "extra-value-for-ptr":
+				mm.Extras = []string{"*ms.Extra", "string"}
+				ex = ", a0 ms.Extra, a1 string"
+			case "extra-slice-for-value":
+				mm.Extras = []string{"int", "string"}
+				ex = ", a0 int, a1 []string"
+			case "extra-count-too-many":
+				mm.Extras = []string{"int"}
+				ex = ", a0 int, a1 int"
+			case "dst-double-pointer":
+				d = "**" + dstT
+			case "src-slice":
+				s = "[]" + srcT
 			case "non-error-result":
 				ret, body = " int", "\treturn 0\n"
 			case "two-results":
@@ -456,7 +491,11 @@ func Gen(r *sim.Rng, kind string) (*sim.WorldSpec, *Meta) {
 		}
 		sort.Strings(mm.Capable)
 		methods = append(methods, mm)
-		// hook-less twin for the sentinel differential (C10)
+		// hook-less twin for the sentinel differential (C10): the same method
+		// without hooks, always in arg style, which the driver calls on a
+		// destination it has filled with sentinels itself. "allocate, let the
+		// by-pointer preprocess hook write sentinels everywhere, copy" must end
+		// in exactly the same destination as "copy onto a sentinel-filled object".
 		if mm.Pre != nil && mm.Pre.DstPtr {
 			tw := mm
 			tw.Name = mm.Name + "Twin"
@@ -464,10 +503,12 @@ func Gen(r *sim.Rng, kind string) (*sim.WorldSpec, *Meta) {
 			tw.Pre, tw.Post = nil, nil
 			tw.Notes = nil
 			for _, n := range mm.Notes {
-				if !strings.HasPrefix(n, ":preprocess") && !strings.HasPrefix(n, ":postprocess") {
+				if !strings.HasPrefix(n, ":preprocess") && !strings.HasPrefix(n, ":postprocess") && n != ":style arg" {
 					tw.Notes = append(tw.Notes, n)
 				}
 			}
+			tw.Notes = append(tw.Notes, ":style arg")
+			tw.Style = "arg"
 			methods[len(methods)-1].Twin = tw.Name
 			methods = append(methods, tw)
 		}
